@@ -200,6 +200,43 @@ pub fn check(ctx: &mut Ctx) {
         }
         None
     });
+    // several elements in one document: a malformed `to` next to / inside / around a well-formed expired one
+    {
+        let now = epoch(2040, 1, 1, 0, 0, 0);
+        let good = ["2030-06-01 00:00:00", "2000-01-01 00:00:00", "2039-12-31 23:59:59"];
+        let future = "2041-01-01 00:00:00";
+        let mut docs: Vec<(String, String)> = vec![];
+        for g in good {
+            for m in MALFORMED_TO.iter().chain([future].iter()) {
+                let ge = format!("<tl to=\"{g}\">G</tl>");
+                let me = format!("<tl to=\"{m}\">M</tl>");
+                docs.push((format!("a{ge}b{me}c"), format!("ab{me}c")));
+                docs.push((format!("a{me}b{ge}c"), format!("a{me}bc")));
+                docs.push((format!("a<tl to=\"{m}\">x{ge}y</tl>c"), format!("a<tl to=\"{m}\">xy</tl>c")));
+                docs.push((format!("a<tl to=\"{g}\">x{me}y</tl>c"), "ac".to_string()));
+                docs.push((format!("a{ge}b{me}c{ge}d{me}e"), format!("ab{me}cd{me}e")));
+            }
+        }
+        let n = docs.len();
+        ctx.exhaustive("several-elements", &format!("{n} documents combining a well-formed expired element with a malformed / future one (before, after, nested either way, alternating)"), vec![docs], move |docs, obs| {
+            for (src, expect) in docs {
+                let cfg = Cfg { ds: "<".into(), de: ">".into(), tl_tag: "tl".into(), rm_tag: "rm".into(), now, offset: "+00:00".into(), targets: vec![] };
+                obs.eval();
+                match call_clean(src, &cfg) {
+                    Ok(out) if &out == expect => obs.nontrivial_counted(|| json!({"src": src, "out": out})),
+                    Ok(out) => {
+                        let c = TimeCase { now, to_attr: src.clone(), offset: "+00:00".into(), expect_ready: false, why: "several-elements".into() };
+                        return Some(fail_case("several-elements", &c, format!("clean({src:?}) at 2040-01-01 gave {out:?}, expected {expect:?}: a malformed or future `to` is never ready, whatever other elements the document contains")));
+                    }
+                    Err(p) => {
+                        let c = TimeCase { now, to_attr: src.clone(), offset: "+00:00".into(), expect_ready: false, why: "several-elements".into() };
+                        return Some(fail_case("several-elements", &c, format!("clean panicked: {p}")));
+                    }
+                }
+            }
+            None
+        });
+    }
     ctx.random(
         "random-instants",
         8,
@@ -305,6 +342,14 @@ pub fn replay(sub: &str, case: &Value, obs: &mut Obs) -> Result<Verdict, String>
             } else {
                 Ok(Verdict::Pass)
             }
+        }
+        "several-elements" => {
+            // to_attr holds the whole document
+            let c: TimeCase = serde_json::from_value(case.clone()).map_err(|e| e.to_string())?;
+            let cfg = Cfg { ds: "<".into(), de: ">".into(), tl_tag: "tl".into(), rm_tag: "rm".into(), now: c.now, offset: c.offset.clone(), targets: vec![] };
+            let out = call_clean(&c.to_attr, &cfg)?;
+            // expected: every element whose `to` is one of the well-formed past values disappears, nothing else
+            Ok(if out.contains(">G<") { Verdict::Fail(format!("expired element survives: {out:?}")) } else if c.to_attr.matches(">M<").count() != out.matches(">M<").count() && !c.to_attr.contains("x<tl") { Verdict::Fail(format!("an element with a malformed / future `to` was removed: {:?} -> {out:?}", c.to_attr)) } else { Verdict::Pass })
         }
         _ => replay_case::<TimeCase, _>(case, obs, |c, obs| {
             obs.eval();
